@@ -194,6 +194,7 @@ pub struct SimDev<H: Handler> {
     pub max_spins_after_served: u32,
     pub notify_before_driver_ok: u64,
     pub lost_wakeups_possible: u64,
+    pub last_hal_len: usize,
 }
 
 impl<H: Handler> SimDev<H> {
@@ -208,6 +209,7 @@ impl<H: Handler> SimDev<H> {
             max_spins_after_served: 0,
             notify_before_driver_ok: 0,
             lost_wakeups_possible: 0,
+            last_hal_len: 0,
         }
     }
 
@@ -279,6 +281,12 @@ impl<H: Handler> SimDev<H> {
         if w.spins <= 1 {
             // first spin of a new driver call
             self.idle_spins = 0;
+        }
+        // platform calls since the last spin mean the driver itself made progress
+        let hl = w.hal.log.len();
+        if hl != self.last_hal_len {
+            self.idle_spins = 0;
+            self.last_hal_len = hl;
         }
         let did = self.turn(w, true);
         if std::env::var("VDV_DEBUG").is_ok() {
